@@ -67,7 +67,15 @@ fn first_diff(a: &[String], b: &[String]) -> String {
 
 fn run_once(x: &Xfer) -> (World, bool) {
     let r = run_xfer(x, 20_000_000, false);
-    (r.world, r.completed)
+    let completed = r.completed;
+    let mut w = r.world;
+    // keep the world alive for a while after the workload: periodic timers (connection ID rotation,
+    // keep-alive, idle) belong to the outputs that must be reproducible and must converge
+    if w.viol.is_empty() && !w.hit_step_limit {
+        let until = w.now + 3_000_000;
+        w.run(until, |_| false);
+    }
+    (w, completed)
 }
 
 pub fn case(tw: &Twin) -> CaseOut {
@@ -168,8 +176,18 @@ pub fn arb_twin() -> impl Strategy<Value = Twin> {
         // the client's source address changes mid-transfer (the server migrates: path challenges on both
         // paths, new congestion state), connection IDs rotate on a short lifetime
         (prop::option::weighted(0.3, 100_000u32..3_000_000), prop::option::weighted(0.3, 100u32..3000), prop::option::weighted(0.3, 100u32..3000)),
+        // a blackout: a run of consecutive datagrams in one direction is lost (a peer that stays silent
+        // for several timer periods)
+        prop::option::weighted(0.25, (any::<bool>(), 0usize..40, 10usize..60)),
     )
-        .prop_map(|(mut x, shift_us, spurious_every, idle, (mv, life_c, life_s))| {
+        .prop_map(|(mut x, shift_us, spurious_every, idle, (mv, life_c, life_s), blackout)| {
+            if let Some((c2s, at, len)) = blackout {
+                let f = if c2s { &mut x.net.faults_c2s } else { &mut x.net.faults_s2c };
+                let at = at.min(f.len());
+                for _ in 0..len {
+                    f.insert(at, Fault::Drop);
+                }
+            }
             if let (Some(t), true) = (mv, x.net.client_ep.cid_len > 0 && x.net.server_ep.cid_len > 0) {
                 x.net.client_move_at_us = Some(t);
                 x.net.srv.migration = true;
